@@ -12,7 +12,9 @@ Inductive obs :=
   | Panicked
   (* reason (0 NotFilteredNotFound, 1 Rewritten, 2 anything else), canonical
      name, addresses (family flag, value) in any order *)
-  | Res (reason : N) (canon : string) (ips : list (bool * N)).
+  | Res (reason : N) (canon : string) (ips : list (bool * N))
+  (* the same with Result.CanonNameRewritten set (fix 2e58a5d) *)
+  | ResC (reason : N) (canon : string) (ips : list (bool * N)).
 
 (** Response side: an answer record (owner, data) and what the client
     received for one query. *)
@@ -92,19 +94,25 @@ Definition same_ips (l1 l2 : list ip) : bool :=
 Definition reason_code (r : reason) : N :=
   match r with NotFound => 0 | Rewritten => 1 end.
 
-Definition obs_ok (m : option rw_result) (o : obs) : bool :=
+(** [mc]: Result.CanonNameRewritten as the model computes it. *)
+Definition obs_ok (m : option rw_result) (mc : option bool) (o : obs) : bool :=
   match m, o with
   | None, Timeout => true
   | Some r, Res c canon ips =>
       (reason_code (r_reason r) =? c) && eqb_bytes (r_canon r) (bs canon) &&
-      same_ips (r_ips r) (map mk_ip ips)
+      same_ips (r_ips r) (map mk_ip ips) &&
+      match mc with Some false => true | _ => false end
+  | Some r, ResC c canon ips =>
+      (reason_code (r_reason r) =? c) && eqb_bytes (r_canon r) (bs canon) &&
+      same_ips (r_ips r) (map mk_ip ips) &&
+      match mc with Some true => true | _ => false end
   | _, _ => false
   end.
 
 Definition query_ok (enabled : bool) (t : list entry) (q : string * N * obs * obs) : bool :=
   let '(h, qt, o1, o2) := q in
-  obs_ok (process_rewrites isort t (bs h) qt) o1 &&
-  obs_ok (check_host isort enabled t (bs h) qt) o2.
+  obs_ok (process_rewrites isort t (bs h) qt) (process_rewrites_covered isort t (bs h) qt) o1 &&
+  obs_ok (check_host isort enabled t (bs h) qt) (check_host_covered isort enabled t (bs h) qt) o2.
 
 (** The scripted upstream of the response harness (c06rUpstream in Go), by
     the suffix of the lower-cased name asked: ".down" the exchange fails;
@@ -220,7 +228,8 @@ Definition list_ok (tbl : list entry) (so : sobs) : bool :=
 
 Definition answers_ok (qs : list (bytes * N)) (tbl : list entry) (so : sobs) : bool :=
   let 'SO _ os := so in
-  all2 (fun (q : bytes * N) o => obs_ok (check_host isort true tbl (fst q) (snd q)) o) qs os.
+  all2 (fun (q : bytes * N) o => obs_ok (check_host isort true tbl (fst q) (snd q))
+                                        (check_host_covered isort true tbl (fst q) (snd q)) o) qs os.
 
 Fixpoint steps_ok (parse : bytes -> option ip) (qs : list (bytes * N)) (tbl : list entry)
     (steps : list (xop * N * sobs)) : bool :=
